@@ -21,6 +21,7 @@
 -/
 import MosVerif.Model.Wire
 -- @component upreply MosVerif.UpReply.run
+-- @component uprecords MosVerif.UpReply.run
 namespace MosVerif.UpReply
 open MosVerif MosVerif.Wire
 
